@@ -100,6 +100,11 @@ func trimTrailingSpacesEdits(content string, mapper *lsputil.PositionMapper, pos
 		if len(trimmed) == len(line) {
 			continue
 		}
+		// blanks behind a lone carriage return stay: without them the carriage return would
+		// become part of the line terminator and the next run would trim the line again
+		if strings.HasSuffix(trimmed, "\r") {
+			continue
+		}
 
 		trimmedUTF16Len := lsputil.UTF16Len(trimmed)
 		lineUTF16Len := lsputil.UTF16Len(line)
